@@ -85,10 +85,10 @@ theorem symlinkAt_ok {target : Bytes} (hN : Normal dst) (hS : Straight fs dst)
         obtain ⟨f, b, g⟩ := create_effect fs hc.1 (.symlink target {} none)
         exact ⟨hc.2, f, b, g, hd⟩
 
-theorem mknod_ok {ma mi : Nat} (hN : Normal dst) (hS : Straight fs dst)
-    (h : mknod fs dst ma mi = .ok fs') :
+theorem mknod_ok {ty ma mi : Nat} (hN : Normal dst) (hS : Straight fs dst)
+    (h : mknod fs dst ty ma mi = .ok fs') :
     fs.get dst = none ∧ Frame dst fs fs' ∧ Below dst fs fs' ∧
-      fs'.get dst = some (.dev ma mi {} none) ∧ ProperDirs fs dst := by
+      fs'.get dst = some (.dev ty ma mi {} none) ∧ ProperDirs fs dst := by
   unfold mknod at h
   cases hr : resolve fs false dst with
   | error e => simp [hr, bind, Except.bind] at h
@@ -104,7 +104,7 @@ theorem mknod_ok {ma mi : Nat} (hN : Normal dst) (hS : Straight fs dst)
       · cases h
       · simp only [pure, Except.pure, Except.ok.injEq] at h
         subst h
-        obtain ⟨f, b, g⟩ := create_effect fs hc.1 (.dev ma mi {} none)
+        obtain ⟨f, b, g⟩ := create_effect fs hc.1 (.dev ty ma mi {} none)
         exact ⟨hc.2, f, b, g, hd⟩
 
 theorem removeAll_ok (hN : Normal dst) (hS : Straight fs dst) (h : removeAll fs dst = .ok fs') :
